@@ -9,7 +9,7 @@ for d in seeded/*/; do
   [ -z "$chk" ] && { echo "$id: no catching check recorded"; continue; }
   n=$((n+1))
   git -C /repo apply /verif/$d/patch.diff 2>/dev/null || { echo "$id: patch does not apply to current /repo"; fail=$((fail+1)); continue; }
-  ./check $chk quick >/tmp/seedregress.log 2>&1; rc=$?
+  ./check $chk quick >/tmp/seedregress.run 2>&1; rc=$?
   git -C /repo checkout -- . ; git -C /repo clean -fdq
   if [ $rc -eq 1 ]; then echo "$id: caught by $chk"; else echo "$id: NOT caught by $chk (rc=$rc)"; fail=$((fail+1)); fi
 done
